@@ -20,7 +20,7 @@ def describe(tier):
         "did, the unpickled objects are independent of the originals; then depth-%d histories over {write any leaf on the original, on the unpickled object, "
         "allocate / free on the unpickled buffer}: both sides keep agreeing with the model; the unpickled buffer stays a working allocator (in bounds, no "
         "overlap with the unpickled objects, free total consistent with a byte-map model seeded from its free list)." % (1 if tier == "quick" else 2),
-        bounds=dict(groups=GROUPS, contexts=CTXKINDS, values=cons.VMODES, protocol=[pickle.DEFAULT_PROTOCOL, 2] if tier == "thorough" else [pickle.DEFAULT_PROTOCOL]),
+        bounds=dict(groups=GROUPS, contexts=CTXKINDS, values=cons.VMODES, protocol=[pickle.DEFAULT_PROTOCOL, 0, 1] + ([2] if tier == "thorough" else [])),
         assumptions=["the context of an unpickled object is a fresh serial CPU context (kernels are not pickled)"],
         must_fire=["pickle", "write-orig", "write-new", "alloc"],
     )
@@ -173,6 +173,8 @@ def run_xo(name, tier, res, seed):
         res.violations.append(common.violation(oracle, failure, feat, case, detail))
 
     combos = [(vm, g, pr, "serial") for vm, g, pr in itertools.product(cons.VMODES, GROUPS, protos)] + [("ramp", g, protos[0], k) for g in ("one", "two-shared") for k in CTXKINDS[1:]]
+    # the oldest protocols (text / binary without object support for classes with slots etc.) on every group
+    combos += [("ramp", g, pr, "serial") for g in GROUPS for pr in (0, 1)]
     for vmode, group, proto, ctxkind in combos:
         _CTXKIND[0] = ctxkind
         f = cons.feats(t, vmode, "py", group)
@@ -391,10 +393,10 @@ def run_hyb(name, tier, res, seed):
     def make_at(buf, n, offset):
         raise NotImplementedError
 
-    for group, ctxkind in [(g, "serial") for g in GROUPS if g != "explicit-offset"] + [(g, k) for g in ("one", "two-shared") for k in CTXKINDS[1:]]:
+    for group, ctxkind, proto in [(g, "serial", pr) for g in GROUPS if g != "explicit-offset" for pr in (pickle.DEFAULT_PROTOCOL, 0, 1)] + [(g, k, pickle.DEFAULT_PROTOCOL) for g in ("one", "two-shared") for k in CTXKINDS[1:]]:
         _CTXKIND[0] = ctxkind
-        f = dict(cls=name, group=group, hybrid=True, context=ctxkind)
-        cid = dict(part="hyb", name=name, group=group, context=ctxkind)
+        f = dict(cls=name, group=group, hybrid=True, context=ctxkind, proto=proto)
+        cid = dict(part="hyb", name=name, group=group, context=ctxkind, proto=proto)
         try:
             objs = make_group(group, make, make_at)
             before = [hyb_read(name, o) for o in objs]
@@ -405,7 +407,7 @@ def run_hyb(name, tier, res, seed):
         res.transitions += 1
         res.events["pickle"] += 1
         try:
-            new = pickle.loads(pickle.dumps(objs))
+            new = pickle.loads(pickle.dumps(objs, protocol=proto))
             after = [hyb_read(name, o) for o in new]
         except Exception as e:
             bad("C20.pickle", "pickle-or-read-raises:" + common.exc_failure(e), f, cid, repr(e))
@@ -423,7 +425,7 @@ def run_hyb(name, tier, res, seed):
             res.events["write-" + side] += 1
             try:
                 objs = make_group(group, make, make_at)
-                new = pickle.loads(pickle.dumps(objs))
+                new = pickle.loads(pickle.dumps(objs, protocol=proto))
                 tgt = objs if side == "orig" else new
                 oth = new if side == "orig" else objs
                 ref = [hyb_read(name, o) for o in oth]
@@ -437,7 +439,7 @@ def run_hyb(name, tier, res, seed):
             except Exception as e:
                 bad("C20.usable", "write-raises:" + common.exc_failure(e), dict(f, side=side), cid, repr(e))
         objs = make_group(group, make, make_at)
-        new = pickle.loads(pickle.dumps(objs))
+        new = pickle.loads(pickle.dumps(objs, protocol=proto))
         ref = [hyb_read(name, o) for o in new]
         seenb = []
         for n_ in new:
